@@ -112,7 +112,8 @@ def run(ctx):
     ctx.lake_build(["Babylon.Properties.C05"])
     ctx.audit("Babylon.Properties.C05")
     if not ctx.quick:
-        ctx.leanchecker(["Babylon.Anyflow.Dep", "Babylon.Anyflow.Graph", "Babylon.Properties.C05"])
+        ctx.leanchecker(["Babylon.Anyflow.Dep", "Babylon.Anyflow.DepLemmas", "Babylon.Anyflow.Graph", "Babylon.Anyflow.GraphSem",
+                         "Babylon.Anyflow.GraphLemmas", "Babylon.Properties.C05"])
     drv = ctx.driver("drv_C05")
     exe, log = _build()
     if exe is None:
@@ -127,7 +128,7 @@ def run(ctx):
     for mode, seed, cnt, env in _load_corpus():
         runs = ctx.econc(exe, drv, [mode], seed, cnt, env=env)
         _classify(ctx, mode, env, runs, dist, distinct, samples)
-    n = 300 if ctx.quick else 5000
+    n = 1200 if ctx.quick else 20000
     known = set(k for k, _ in ctx._known())
     if ctx.broken or any(k not in known for k, _ in ctx.failing):
         n *= 5      # something new is wrong: look harder for a concrete failing input
